@@ -71,6 +71,23 @@ GRV_CMD(cmap) {
                     report_fail("C13", b, w.done());
                 }
             };
+            // the Silf pseudo-glyph map as read by the independent reader (first subtable, first matching entry wins):
+            // findPseudo must return exactly that, and a character is supported iff the cmap or the pseudo map knows it
+            if (v->has("pseudos")) {
+                std::map<uint32_t, uint16_t> pm;
+                for (auto &e : (*v)["pseudos"].a) { const uint32_t u = uint32_t((*e)[size_t(0)].num()); if (!pm.count(u)) pm[u] = uint16_t((*e)[1].num()); }
+                auto pcheck = [&](uint32_t cp) {
+                    const uint16_t wantp = pm.count(cp) ? pm[cp] : 0, gotp = F->findPseudo(cp);
+                    const bool sup = gr_face_is_char_supported(face, cp, 0) != 0, wantsup = ref_of(ps, cp) != 0 || wantp != 0;
+                    if (gotp != wantp || sup != wantsup) {
+                        char b[240]; snprintf(b, sizeof b, "U+%04X: pseudo-glyph map gives %u (font says %u), is_char_supported %d (expected %d), %s cmap", cp, gotp, wantp, int(sup), int(wantsup), cached ? "cached" : "direct");
+                        vj::W w; w.i("cp", cp).i("got_pseudo", gotp).i("want_pseudo", wantp).b("cached", cached != 0).str("case", tag);
+                        report_fail("C13", b, w.done());
+                    }
+                };
+                for (auto &kv : pm) { pcheck(kv.first); pcheck(kv.first + 1); if (kv.first) pcheck(kv.first - 1); }
+                for (uint32_t cp : probes) pcheck(cp);
+            }
             for (uint32_t cp : probes) check(cp);
             const unsigned st = shipped ? 1 : stride;         // shipped fonts: every code point
             for (uint32_t cp = (st > 1 ? uint32_t(g_cases % st) : 0); cp <= 0x10FFFF; cp += st) check(cp);
